@@ -33,6 +33,9 @@ type pooled struct {
 	ctl  ast.HSMSMessage
 	snap string
 	born string
+	// kinds of the variables this object is known to hold (from the models the harness built it from);
+	// ref.L stands for a list variable. Unknown for parser-produced objects.
+	kinds map[string]ref.Kind
 }
 
 func snapOf(p *pooled) string {
@@ -74,6 +77,72 @@ type history struct {
 	cs    c11Case
 	bad   bool
 	scrib map[string]int
+}
+
+// fillValue draws a fresh, varied fill-in value for a variable of the given kind, so that filling the same template
+// twice gives different results (a producer that shares storage between its results then becomes visible).
+func (h *history) fillValue(k ref.Kind, known bool) interface{} {
+	r := h.r
+	if !known {
+		return []interface{}{r.Intn(100), uint8(r.Intn(200)), r.Bool(), string(h.g.ASCII(r.Intn(5))), float64(r.Intn(1000)) / 8, ast.NewBinaryNode(r.Intn(256)), fmt.Sprintf("0b%b", r.Intn(256))}[r.Intn(7)]
+	}
+	switch {
+	case k == ref.L:
+		return []ast.ItemNode{ast.NewBinaryNode(r.Intn(256)), ast.NewUintNode(2, r.Intn(65536)), ast.NewASCIINode(string(h.g.ASCII(r.Intn(4)))), ast.NewListNode()}[r.Intn(4)]
+	case k == ref.A:
+		return string(h.g.ASCII(r.Intn(6)))
+	case k == ref.B:
+		if r.Chance(1, 4) {
+			return fmt.Sprintf("0b%b", r.Intn(256))
+		}
+		return r.Intn(256)
+	case k == ref.BOOLEAN:
+		return r.Bool()
+	case k.IsFloat():
+		if r.Bool() {
+			return float32(r.Intn(2000)) / 16
+		}
+		return float64(r.Intn(100000)) / 64
+	case k.IsInt():
+		return []interface{}{r.Intn(256) - 128, int8(r.Intn(256) - 128), int64(r.Intn(200) - 100), int16(r.Intn(100))}[r.Intn(4)]
+	default:
+		return []interface{}{r.Intn(256), uint8(r.Intn(256)), uint64(r.Intn(256)), uint16(r.Intn(200))}[r.Intn(4)]
+	}
+}
+
+func modelKinds(it *ref.Item, out map[string]ref.Kind) {
+	if it.Var != "" {
+		if !ref.IsEllipsisName(it.Var) {
+			out[it.Var] = ref.L
+		}
+		return
+	}
+	switch it.Kind {
+	case ref.L:
+		for _, c := range it.Children {
+			modelKinds(c, out)
+		}
+	case ref.A:
+		if it.AVar != "" {
+			out[it.AVar] = ref.A
+		}
+	default:
+		for _, sl := range it.Slots {
+			if sl.Var != "" {
+				out[sl.Var] = it.Kind
+			}
+		}
+	}
+}
+
+func remainingKinds(src map[string]ref.Kind, vars []string) map[string]ref.Kind {
+	out := map[string]ref.Kind{}
+	for _, v := range vars {
+		if k, ok := src[v]; ok {
+			out[v] = k
+		}
+	}
+	return out
 }
 
 func (h *history) add(p *pooled, born string) {
@@ -130,15 +199,17 @@ func (h *history) step(i int) {
 		k := ref.Kind(1 + r.Intn(int(ref.NKinds)-1))
 		h.g.P.Vars = r.Bool()
 		m := h.g.Scalar(k)
+		kinds := map[string]ref.Kind{}
+		modelKinds(m, kinds)
 		if k == ref.A {
-			real.Try(func() { h.add(&pooled{kind: "item", item: real.Build(m)}, op) })
+			real.Try(func() { h.add(&pooled{kind: "item", item: real.Build(m), kinds: kinds}, op) })
 			return
 		}
 		args := make([]interface{}, len(m.Slots), len(m.Slots)+3)
 		for j, s := range m.Slots {
 			args[j] = real.SlotValue(k, s)
 		}
-		o := real.Try(func() { h.add(&pooled{kind: "item", item: real.Factory(k, args...)}, op) })
+		o := real.Try(func() { h.add(&pooled{kind: "item", item: real.Factory(k, args...), kinds: kinds}, op) })
 		if !o.Panicked && len(args) > 0 {
 			for j := range args {
 				args[j] = "scribbled"
@@ -150,6 +221,7 @@ func (h *history) step(i int) {
 		n := r.Intn(5)
 		args := make([]interface{}, 0, n+2)
 		used := map[string]bool{}
+		lkinds := map[string]ref.Kind{}
 		for j := 0; j < n; j++ {
 			if p := h.pickKind("item"); p != nil && r.Chance(2, 3) {
 				dup := false
@@ -161,6 +233,9 @@ func (h *history) step(i int) {
 				if !dup {
 					for _, v := range p.item.Variables() {
 						used[v] = true
+						if k, ok := p.kinds[v]; ok {
+							lkinds[v] = k
+						}
 					}
 					args = append(args, p.item)
 					continue
@@ -171,7 +246,11 @@ func (h *history) step(i int) {
 		if n > 0 && r.Chance(1, 4) {
 			args = append(args, "...")
 		}
-		o := real.Try(func() { h.add(&pooled{kind: "item", item: ast.NewListNode(args...)}, op) })
+		if n > 0 && r.Chance(1, 5) && !used["lv"] {
+			args = append(args, "lv")
+			lkinds["lv"] = ref.L
+		}
+		o := real.Try(func() { h.add(&pooled{kind: "item", item: ast.NewListNode(args...), kinds: lkinds}, op) })
 		if !o.Panicked && len(args) > 0 {
 			for j := range args {
 				args[j] = ast.NewASCIINode("scribbled")
@@ -186,17 +265,29 @@ func (h *history) step(i int) {
 		}
 		vars := p.item.Variables()
 		m := map[string]interface{}{}
+		one := r.Chance(1, 3) // one variable only, or a random subset
+		pickOne := ""
+		if one && len(vars) > 0 {
+			pickOne = vars[r.Intn(len(vars))]
+		}
 		for _, v := range vars {
-			if r.Bool() {
+			if (one && v == pickOne) || (!one && r.Bool()) {
 				if ref.IsEllipsisName(v) {
 					m[v] = r.Intn(3)
 				} else {
-					m[v] = []interface{}{1, uint8(2), true, "abc", 1.5, ast.NewBinaryNode(1), "0b1"}[r.Intn(7)]
+					k, known := p.kinds[v]
+					m[v] = h.fillValue(k, known)
 				}
 			}
 		}
 		m["unknown"] = 5
-		o := real.Try(func() { h.add(&pooled{kind: "item", item: p.item.FillVariables(m)}, op) })
+		o := real.Try(func() {
+			n := p.item.FillVariables(m)
+			h.add(&pooled{kind: "item", item: n, kinds: remainingKinds(p.kinds, n.Variables())}, op)
+		})
+		if !o.Panicked {
+			h.c.Class("fill-accepted")
+		}
 		for k := range m {
 			delete(m, k)
 		}
@@ -211,8 +302,10 @@ func (h *history) step(i int) {
 		op = "factory/message"
 		p := h.pickKind("item")
 		var it ast.ItemNode = ast.NewEmptyItemNode()
+		var mk map[string]ref.Kind
 		if p != nil && r.Chance(4, 5) {
 			it = p.item
+			mk = p.kinds
 		}
 		sys := r.Bytes(r.Intn(7))
 		f := r.Intn(256)
@@ -232,7 +325,7 @@ func (h *history) step(i int) {
 		} else {
 			wb := []int{0, 2, w}[r.Intn(3)]
 			real.Try(func() {
-				h.add(&pooled{kind: "data", data: ast.NewDataMessage("tmpl", r.Intn(128), f, wb, "H<-E", it)}, op)
+				h.add(&pooled{kind: "data", data: ast.NewDataMessage("tmpl", r.Intn(128), f, wb, "H<-E", it), kinds: mk}, op)
 			})
 		}
 	case 7: // SetSessionIDAndSystemBytes
@@ -243,7 +336,7 @@ func (h *history) step(i int) {
 		}
 		sys := r.Bytes(r.Intn(7))
 		o := real.Try(func() {
-			h.add(&pooled{kind: "data", data: p.data.SetSessionIDAndSystemBytes(r.Intn(65536), sys)}, op)
+			h.add(&pooled{kind: "data", data: p.data.SetSessionIDAndSystemBytes(r.Intn(65536), sys), kinds: p.kinds}, op)
 		})
 		if !o.Panicked && len(sys) > 0 {
 			scribbleBytes(sys)
@@ -256,17 +349,24 @@ func (h *history) step(i int) {
 		}
 		if r.Bool() {
 			op = "producer/wait"
-			real.Try(func() { h.add(&pooled{kind: "data", data: p.data.SetWaitBit(r.Bool())}, op) })
+			real.Try(func() { h.add(&pooled{kind: "data", data: p.data.SetWaitBit(r.Bool()), kinds: p.kinds}, op) })
 			return
 		}
 		op = "fill/message"
 		m := map[string]interface{}{}
 		for _, v := range p.data.Variables() {
-			if r.Bool() {
-				m[v] = []interface{}{1, true, "ab", 2.5, ast.NewBooleanNode(true)}[r.Intn(5)]
+			if r.Bool() && !ref.IsEllipsisName(v) {
+				k, known := p.kinds[v]
+				m[v] = h.fillValue(k, known)
 			}
 		}
-		o := real.Try(func() { h.add(&pooled{kind: "data", data: p.data.FillVariables(m)}, op) })
+		o := real.Try(func() {
+			n := p.data.FillVariables(m)
+			h.add(&pooled{kind: "data", data: n, kinds: remainingKinds(p.kinds, n.Variables())}, op)
+		})
+		if !o.Panicked {
+			h.c.Class("fill-accepted")
+		}
 		for k := range m {
 			m[k] = "scribbled"
 		}
@@ -440,7 +540,7 @@ func runC11(c *ctx) {
 			c.Sample(map[string]interface{}{"history_seed": seed, "steps": 200, "scribbles": scr})
 		}
 	})
-	c.Required = []string{"scribbled/factory-args", "scribbled/fill-map", "scribbled/system-bytes-arg", "scribbled/returned-bytes", "scribbled/returned-variables", "scribbled/returned-system-bytes", "scribbled/control-header-arg", "scribbled/decoder-input", "op/parse/sml"}
+	c.Required = []string{"scribbled/factory-args", "scribbled/fill-map", "scribbled/system-bytes-arg", "scribbled/returned-bytes", "scribbled/returned-variables", "scribbled/returned-system-bytes", "scribbled/control-header-arg", "scribbled/decoder-input", "op/parse/sml", "fill-accepted"}
 }
 
 func replayC11(c *ctx, raw json.RawMessage) {
